@@ -585,7 +585,37 @@ func (g *gen) xgoStmt(b *sb, d int) bool {
 	i := idx[g.c.Int(len(idx))]
 	x := g.xgo[g.imps[i].xgo-1]
 	p := g.imp(i)
-	switch g.c.Int(6) {
+	switch g.c.Int(8) {
+	case 6, 7:
+		// both members of a comma-ok pair with the same non-constant argument
+		k := g.fresh(false)
+		b.line("%s := %s", k, g.expr("string", d-1))
+		one := func() {
+			v := g.fresh(false)
+			if chance(g.c, 1, 2) {
+				b.line("%s := %s.Get__0(%s)", v, p, k)
+			} else {
+				b.line("%s := %s.NewThing().Find__0(%s)", v, p, k)
+			}
+			b.line("_ = %s", v)
+		}
+		two := func() {
+			v, ok := g.fresh(false), g.fresh(false)
+			if chance(g.c, 1, 2) {
+				b.line("%s, %s := %s.Get__1(%s)", v, ok, p, k)
+			} else {
+				b.line("%s, %s := %s.NewThing().Find__1(%s)", v, ok, p, k)
+			}
+			b.line("_, _ = %s, %s", v, ok)
+		}
+		if chance(g.c, 1, 2) {
+			one()
+			two()
+		} else {
+			two()
+			one()
+		}
+		return true
 	case 4:
 		b.line("%s.G__1(%s, %s)", p, []string{"true", "false", g.expr("bool", d-1)}[g.c.Int(3)], g.expr("string", d-1))
 		return true
